@@ -120,6 +120,19 @@ fn vector_tile_from_bytes(a: &[String]) -> Result<bool> {
 	Ok(false)
 }
 
+fn cache_just_used_survives(a: &[String]) -> Result<bool> {
+	// args: capacity_bytes k1 k2 k3 — C20: add(k1), add(k2), get(k1) [just used], add(k3): k1 must still be cached (capacity >= 2)
+	let cap: usize = arg(a, 0);
+	let (k1, k2, k3): (u8, u8, u8) = (arg(a, 1), arg(a, 2), arg(a, 3));
+	let mut c = LimitedCache::<u8, u8>::with_maximum_size(cap);
+	c.add(k1, 1); c.add(k2, 2);
+	let hit = c.get(&k1);
+	c.add(k3, 3);
+	let still = c.get(&k1);
+	println!("get({k1}) before = {hit:?}, after add({k3}) = {still:?}; cache = {c:?}");
+	Ok(hit.is_some() && still.is_none())
+}
+
 fn main() -> Result<()> {
 	let args: Vec<String> = std::env::args().skip(1).collect();
 	if args.is_empty() { eprintln!("usage: verif_replay <case> args…"); std::process::exit(2); }
@@ -128,6 +141,7 @@ fn main() -> Result<()> {
 	let r = std::panic::catch_unwind(|| -> Result<bool> {
 		match args[0].as_str() {
 			"converter_lookup_vs_stream" => rt.block_on(converter_lookup_vs_stream(rest)),
+			"cache_just_used_survives" => cache_just_used_survives(rest),
 			"svarint_roundtrip" => svarint_roundtrip(rest),
 			"pbf_length_prefix" => pbf_length_prefix(rest),
 			"vector_tile_from_bytes" => vector_tile_from_bytes(rest),
